@@ -7,6 +7,11 @@ import (
 	"syscall"
 	"unsafe"
 
+	gocvss20 "github.com/pandatix/go-cvss/20"
+	gocvss30 "github.com/pandatix/go-cvss/30"
+	gocvss31 "github.com/pandatix/go-cvss/31"
+	gocvss40 "github.com/pandatix/go-cvss/40"
+
 	"verifharness/adapt"
 	"verifharness/gen"
 	"verifharness/spec"
@@ -203,6 +208,112 @@ func hugeCases() []HugeCase {
 		for _, l := range []int64{1<<32 + n, 1 << 32, 1<<32 + n + 6, 1<<31 + n, 1<<32 + n + 1} {
 			out = append(out, HugeCase{Ver: r.Ver, Vector: r.S, Len: l})
 		}
+	}
+	return out
+}
+
+// ---- guarded objects -----------------------------------------------------------------------------
+
+// GuardObj: an object (given by a valid vector) copied so that its last byte is the last byte of a readable page
+// whose successor is inaccessible (or its first byte the first of a page whose predecessor is), the way the last
+// element of a memory-mapped array of records lies. Every method is then called on that copy. A method that loads
+// a word that extends beyond the object "and shifts the rest out" faults here.
+type GuardObj struct {
+	Ver   int      `json:"ver"`
+	Vec   gen.BStr `json:"vector"`
+	AtEnd bool     `json:"flush_with_page_end"`
+}
+
+func (a *guardArena) page() ([]byte, bool) {
+	a.mu.Lock()
+	defer a.mu.Unlock()
+	if a.mem == nil || a.next >= a.n {
+		return nil, false
+	}
+	pg := a.mem[(2*a.next+1)*pageSize : (2*a.next+2)*pageSize]
+	a.next++
+	return pg, true
+}
+
+func checkGuardObj(c GuardObj) error {
+	if c.Ver < 0 || c.Ver > 3 {
+		return nil
+	}
+	if err := arena.init(guardPairs); err != nil {
+		return nil
+	}
+	p := adapt.Pkgs[c.Ver]
+	src, err := p.Parse(string(c.Vec))
+	if err != nil || src == nil {
+		return nil
+	}
+	pg, ok := arena.page()
+	if !ok {
+		return nil
+	}
+	at := func(size uintptr) unsafe.Pointer {
+		if c.AtEnd {
+			return unsafe.Pointer(&pg[pageSize-int(size)])
+		}
+		return unsafe.Pointer(&pg[0])
+	}
+	var o adapt.Obj
+	switch c.Ver {
+	case 0:
+		q := (*gocvss20.CVSS20)(at(unsafe.Sizeof(gocvss20.CVSS20{})))
+		*q = *src.(adapt.O20).P
+		o = adapt.O20{P: q}
+	case 1:
+		q := (*gocvss30.CVSS30)(at(unsafe.Sizeof(gocvss30.CVSS30{})))
+		*q = *src.(adapt.O30).P
+		o = adapt.O30{P: q}
+	case 2:
+		q := (*gocvss31.CVSS31)(at(unsafe.Sizeof(gocvss31.CVSS31{})))
+		*q = *src.(adapt.O31).P
+		o = adapt.O31{P: q}
+	default:
+		q := (*gocvss40.CVSS40)(at(unsafe.Sizeof(gocvss40.CVSS40{})))
+		*q = *src.(adapt.O40).P
+		o = adapt.O40{P: q}
+	}
+	observe := func(x adapt.Obj) string {
+		s := x.Vector() + "|" + fbits(x.Scores()) + fbits(x.SubScores()) + "|" + x.Nomenclature()
+		for _, m := range p.V.Metrics {
+			g, _ := x.Get(m.Abv)
+			s += "|" + g
+		}
+		m := p.V.Metrics[len(p.V.Metrics)-1]
+		x.Set(m.Abv, m.Vals[len(m.Vals)-1])
+		x.Set(p.V.Metrics[0].Abv, p.V.Metrics[0].Vals[0])
+		return s + "|" + x.State()
+	}
+	want := observe(src.Clone())
+	var res error
+	done := make(chan struct{})
+	go func() {
+		defer close(done)
+		debug.SetPanicOnFault(true)
+		var got string
+		if e := adapt.Safe(func() { got = observe(o) }); e != nil {
+			where := "start"
+			if c.AtEnd {
+				where = "end"
+			}
+			res = fmt.Errorf("v%s: a method faults on an object (%s) that lies at the %s of accessible memory - it accesses bytes outside the object: %v", p.V.Name, string(c.Vec), where, e)
+			return
+		}
+		if got != want {
+			res = fmt.Errorf("v%s: the methods of an object (%s) placed at a page edge return %q, elsewhere %q", p.V.Name, string(c.Vec), got, want)
+		}
+	}()
+	<-done
+	return res
+}
+
+func guardObjCases() []GuardObj {
+	var out []GuardObj
+	for _, r := range gen.Representatives() {
+		out = append(out, GuardObj{Ver: r.Ver, Vec: gen.BStr(r.S), AtEnd: true}, GuardObj{Ver: r.Ver, Vec: gen.BStr(r.S), AtEnd: false})
 	}
 	return out
 }
